@@ -27,13 +27,39 @@ class TableReader:
         p = os.path.join(self.root, HINT)
         if not os.path.exists(p):
             return None
-        text = open(p, "rb").read().decode("utf-8").strip()
-        if text.isdigit():
+        try:
+            text = open(p, "rb").read().decode("utf-8").strip()
+        except UnicodeDecodeError:
+            return None
+        if text.isdigit() and text.isascii():
             return f"v{text}.metadata.json"
         return text if _META_RE.match(text) else None
 
+    def versions_on_disk(self) -> List[Tuple[int, str]]:
+        """(version, file name) of every metadata version file directly under metadata/."""
+        d = os.path.join(self.root, "metadata")
+        out = []
+        for f in os.listdir(d) if os.path.isdir(d) else []:
+            m = _META_RE.match(f)
+            if m and os.path.isfile(os.path.join(d, f)):
+                out.append((int(m.group(1)), f))
+        return out
+
+    def current(self) -> Optional[str]:
+        """The current metadata file as the format defines it when the pointer is only a hint: the file the pointer
+        names if that file exists; otherwise the highest version on disk (newest modification time among equals)."""
+        name = self.pointer()
+        if name is not None and os.path.isfile(os.path.join(self.root, "metadata", name)):
+            return name
+        vs = self.versions_on_disk()
+        if not vs:
+            return None
+        top = max(v for v, _ in vs)
+        cands = [f for v, f in vs if v == top]
+        return max(cands, key=lambda f: os.path.getmtime(os.path.join(self.root, "metadata", f)))
+
     def metadata(self, name: Optional[str] = None) -> Dict[str, Any]:
-        name = name or self.pointer()
+        name = name or self.current()
         if name is None:
             raise FileNotFoundError("no pointer")
         with open(os.path.join(self.root, "metadata", name), "rb") as f:
